@@ -63,6 +63,9 @@ IllFormedSides(g) ==
       \/ "formed" \in DOMAIN g.bch[b] /\ ~(b \in Bonds(g) /\ g.bd[b].role \in {"none", "formed"})
       \/ "fleeting" \in DOMAIN g.bch[b] /\ b \notin Bonds(g)
 
+Repeats(d) == \E i, j \in DOMAIN d.atoms : i < j /\ d.atoms[i] = d.atoms[j] /\ d.atoms[i] # NoAtom
+HasRepeats(g) == \/ \E k1 \in DOMAIN g.ast : Repeats(g.ast[k1])
+                 \/ \E k2 \in DOMAIN g.bst : Repeats(g.bst[k2])
 HasPlaceholder(g) == \/ \E k \in DOMAIN g.ast : Mentions(g.ast[k], NoAtom)
                      \/ \E k \in DOMAIN g.bst : Mentions(g.bst[k], NoAtom)
 
@@ -186,8 +189,12 @@ Outcomes(g, h, op) ==
     [] n = "component_of" ->
          IF a \in Atoms(g) THEN { ANS(g, AIds(ReachFrom(g, {a}))) } ELSE { RAISE(g), ANS(g, AAny) }
     [] n = "n_components" -> { ANS(g, AInt(Cardinality(Components(g)))) }
-    [] n = "role_bonds" ->         \* get_formed_bonds / get_broken_bonds / get_fleeting_bonds, bonds as codes
-         IF HasRoles(g.kind) THEN { ANS(g, AIds({ BondCode(bb) : bb \in RoleBonds(g, op.ch) })) } ELSE {}
+    \* get_formed_bonds / get_broken_bonds / get_fleeting_bonds: the atoms at their ends (flag: their number instead);
+    \* no arithmetic on identifiers, which are arbitrary integers in recorded histories
+    [] n = "role_bonds" ->
+         IF ~HasRoles(g.kind) THEN {}
+         ELSE IF op.flag THEN { ANS(g, AInt(Cardinality(RoleBonds(g, op.ch)))) }
+         ELSE { ANS(g, AIds(UNION RoleBonds(g, op.ch))) }
     [] n = "active_atoms" ->       \* op.flag: one additional layer of neighbours
          LET core == ActiveCore(g)
              lay  == IF op.flag THEN core \cup UNION { Nbrs(g, x) : x \in core } ELSE core
@@ -211,8 +218,9 @@ Outcomes(g, h, op) ==
     [] n = "get_bond_stereo_change" ->
          IF ~HasBond(g, a, b) THEN Negative(g)
          ELSE IF {a, b} \in DOMAIN g.bch THEN { ANS(g, AChg(g.bch[{a, b}])) } ELSE { ANS(g, NoAns), ANS(g, AChg(Emp)) }
-    [] n = "is_stereo_valid" ->      \* no property says whether a lone-pair placeholder needs a bond
-         IF HasPlaceholder(g) THEN { ANS(g, ABool(TRUE)), ANS(g, ABool(FALSE)) }
+    [] n = "is_stereo_valid" ->      \* no property says whether a lone-pair placeholder needs a bond, nor what a
+                                     \* descriptor naming one atom twice (only random histories write such) is worth
+         IF HasPlaceholder(g) \/ HasRepeats(g) THEN { ANS(g, ABool(TRUE)), ANS(g, ABool(FALSE)) }
          ELSE { ANS(g, ABool(StereoValid(g))) }
     [] n \in {"eq_self", "eq_copy"} ->   \* a descriptor naming something that is not an atom: may refuse
          IF Dangling(g) \/ IllFormedSides(g) THEN { ANS(g, ABool(TRUE)), RAISE(g) } ELSE { ANS(g, ABool(TRUE)) }
